@@ -336,10 +336,23 @@ def gated(ob, fn):
 def get_trace(ob, gb, prop):
     cmd = cbmc_cmd(ob, gb, trace_prop=prop)
     rc, out, err, secs, to = gated(ob, lambda: sh(cmd, timeout=ob.timeout * 2, mem_gb=ob.mem_gb))
+    if not to:
+        res, errs, stats = parse_cbmc(out)
+        if res is not None:
+            v = trace_inputs(res, prop)
+            if v is not None: return v
+    # some properties (unwinding assertions) cannot be selected with --property: take the first failing trace instead
+    cmd = cbmc_cmd(ob, gb) + ['--trace', '--stop-on-fail']
+    rc, out, err, secs, to = gated(ob, lambda: sh(cmd, timeout=ob.timeout * 2, mem_gb=ob.mem_gb))
     if to: return None
-    res, errs, stats = parse_cbmc(out)
-    if res is None: return None
-    return trace_inputs(res, prop)
+    try: data = json.loads(out)
+    except Exception: return None
+    for m in data:
+        if isinstance(m, dict) and 'result' in m:
+            for r in m['result']:
+                if 'trace' in r and not r.get('description', '').startswith('VERIF_'):
+                    return trace_inputs(m['result'], r.get('property'))
+    return None
 
 def native_replay(ob, extra_defs, values=None, replay_file=None):
     """-> (verdict, text): verdict in confirmed-assert, confirmed-sanitizer, confirmed-hang, unconfirmed, mismatch, build-error"""
